@@ -10,7 +10,8 @@ LEVEL_TEXT = ("Exploration with a model-checked oracle. Flush.tla is an abstract
               "written line (a control model flushing bottom-up is refuted), and that the constructive filtered flush satisfies the declarative "
               "rule of FlushRules.tla (exactly the matching dirty lines written back and clean afterwards, every line still valid, the other "
               "dirty lines still dirty). The real caches are NOT transcribed: after a C16 workload on a generated stack (at least one write-back "
-              "cache in three stacks out of four) the requester drains every cache and ROB top-down through the Control ports, flushes each cache "
+              "cache in three stacks out of four; every third (quick) / fifth stack a tiny write-back cache over a slow or back-pressured lower "
+              "level, swept with full-line write misses so that write-backs are still queued when the drain arrives) the requester drains every cache and ROB top-down through the Control ports, flushes each cache "
               "with several filters drawn from its directory (address lists with dirty, clean and absent lines, process ids, both) and finally "
               "with the empty filter; the directory before/after every flush, the lines written through the cache's Bottom port, and the "
               "controllers' storages after the last flush are validated by TLC (FlushTrace.tla) against the flat memory of MemHier. In half of the "
@@ -46,7 +47,10 @@ def run(ck):
     else:
         stacks, requests, shards, filters = 80, 2000, 10, 8
     import checks.c16 as c16
-    extra = dict(leaves=c16.leaves(ck, stacks), no_mask_every=2, filters=filters)
+    # every k-th stack is of the family "slow lower level": a sweep of full-line write misses at high concurrency over tiny
+    # write-back caches whose write-backs queue up behind a slow lower level; the programme starts right after the sweep, so
+    # a victim whose write-back was lost is not touched again before the backing storage is inspected
+    extra = dict(leaves=c16.leaves(ck, stacks), no_mask_every=2, filters=filters, slow_every=3 if ck.tier == "quick" else 5)
     summary, results = memcheck.campaign(ck, "C17", flush=True, stacks=stacks, requests=requests, shards=shards,
                                          module="FlushTrace", cfg="FlushTrace.cfg", relevant=memcheck.is_c17, extra=extra)
     if side:
